@@ -475,3 +475,139 @@ Proof.
   - apply safe_bind; [exact IHt1|]. intros x. apply safe_bind; [exact IHt2|]. intros y. apply safe_ret.
   - apply safe_ret.
 Qed.
+
+(* ---- readVarInt ---- *)
+Lemma varint_scan_good : forall s sz shift acc r sz' s',
+  varint_scan s sz shift acc = (r, sz', s') ->
+  exists c, s = c ++ s' /\
+    (rtransport r = false ->
+       sz' = sz - Z.of_nat (length c) /\ forall rest, varint_scan (c ++ rest) sz shift acc = (r, sz', rest)) /\
+    (forall k, (k < length c)%nat ->
+       exists e sz2 s2, varint_scan (firstn k c) sz shift acc = (inr e, sz2, s2) /\ transport e = true).
+Proof.
+  induction s as [|b t IH]; intros sz shift acc r sz' s' H.
+  - cbn [varint_scan] in H.
+    destruct (Z.ltb_spec sz 0) as [Hn|Hn]; [|destruct (Z.eqb_spec sz 0) as [Hz|Hz]];
+      inversion H; subst; exists []; (split; [reflexivity|]); split;
+      try (cbn; intros k Hk; lia); try (cbn; discriminate).
+    + intros _. split; [cbn; lia|]. intros rest. cbn [app]. destruct rest; cbn [varint_scan];
+        destruct (Z.ltb_spec sz' 0); try reflexivity; lia.
+    + intros _. split; [cbn; lia|]. intros rest. cbn [app]. destruct rest; cbn [varint_scan];
+        destruct (Z.ltb_spec 0 0); try lia; reflexivity.
+  - cbn [varint_scan] in H.
+    destruct (Z.ltb_spec sz 0) as [Hn|Hn].
+    { inversion H; subst. exists []. split; [reflexivity|]. split; [|cbn; intros k Hk; lia].
+      intros _. split; [cbn; lia|]. intros rest. cbn [app]. destruct rest; cbn [varint_scan];
+        destruct (Z.ltb_spec sz' 0); try reflexivity; lia. }
+    destruct (Z.eqb_spec sz 0) as [Hz|Hz].
+    { inversion H; subst. exists []. split; [reflexivity|]. split; [|cbn; intros k Hk; lia].
+      intros _. split; [cbn; lia|]. intros rest. cbn [app]. destruct rest; cbn [varint_scan]; reflexivity. }
+    assert (Hk0 : exists e sz2 s2, varint_scan [] sz shift acc = (inr e, sz2, s2) /\ transport e = true).
+    { cbn [varint_scan]. destruct (Z.ltb_spec sz 0); [lia|]. destruct (Z.eqb_spec sz 0); [lia|].
+      exists EEOF, sz, []. auto. }
+    set (acc' := N.lor acc (if (shift <? 64)%N then ((N.land b 127 * 2 ^ shift) mod M64)%N else 0%N)) in *.
+    destruct (b <? 128)%N eqn:Eb.
+    + inversion H; subst. exists [b]. split; [reflexivity|]. split.
+      * intros _. split; [cbn; lia|]. intros rest. cbn [app varint_scan].
+        destruct (Z.ltb_spec sz 0); [lia|]. destruct (Z.eqb_spec sz 0); [lia|].
+        fold acc'. rewrite Eb. reflexivity.
+      * intros k Hk. cbn in Hk. assert (k = 0%nat) by lia. subst k. exact Hk0.
+    + destruct (IH _ _ _ _ _ _ H) as (c & Hs & Hb & Hd).
+      exists (b :: c). split; [cbn; rewrite <- Hs; reflexivity|]. split.
+      * intros Hr. destruct (Hb Hr) as [Hsz Hloc]. split; [cbn [length]; lia|].
+        intros rest. cbn [app varint_scan].
+        destruct (Z.ltb_spec sz 0); [lia|]. destruct (Z.eqb_spec sz 0); [lia|].
+        fold acc'. rewrite Eb. apply Hloc.
+      * intros k Hk. destruct k as [|k]; [exact Hk0|].
+        cbn [length] in Hk. destruct (Hd k ltac:(lia)) as (e & sz2 & s2 & He & Ht).
+        exists e, sz2, s2. split; [|exact Ht]. cbn [firstn varint_scan].
+        destruct (Z.ltb_spec sz 0); [lia|]. destruct (Z.eqb_spec sz 0); [lia|].
+        fold acc'. rewrite Eb. exact He.
+Qed.
+
+Lemma good_readVarInt : good readVarInt.
+Proof.
+  intros sz s r sz' s' H. unfold readVarInt in H.
+  destruct (varint_scan s sz 0 0) as [[r0 sz0] s0] eqn:E.
+  destruct (varint_scan_good _ _ _ _ _ _ _ E) as (c & Hs & Hb & Hd).
+  assert (Hr : rtransport r = rtransport r0 /\ sz' = sz0 /\ s' = s0).
+  { destruct r0; inversion H; subst; auto. }
+  destruct Hr as (Hr & ? & ?). subst sz0 s0.
+  exists c. split; [exact Hs|]. split.
+  - intros Hnt. rewrite Hr in Hnt. destruct (Hb Hnt) as [Hsz Hloc]. split; [exact Hsz|].
+    intros rest. unfold readVarInt. rewrite Hloc. destruct r0; inversion H; reflexivity.
+  - intros k Hk. destruct (Hd k Hk) as (e & sz2 & s2 & He & Ht). exists e, sz2, s2.
+    split; [|exact Ht]. unfold readVarInt. rewrite He. reflexivity.
+Qed.
+
+Lemma varint_scan_safe : forall s sz shift acc r sz' s',
+  varint_scan s sz shift acc = (r, sz', s') -> sz <= Z.of_nat (length s) ->
+  rtransport r = false /\ sz' <= Z.of_nat (length s').
+Proof.
+  induction s as [|b t IH]; intros sz shift acc r sz' s' H Hl; cbn [varint_scan] in H.
+  - destruct (Z.ltb_spec sz 0); [inversion H; subst; auto|].
+    destruct (Z.eqb_spec sz 0); [inversion H; subst; auto|]. cbn in Hl. lia.
+  - destruct (Z.ltb_spec sz 0); [inversion H; subst; auto|].
+    destruct (Z.eqb_spec sz 0); [inversion H; subst; auto|].
+    destruct (b <? 128)%N.
+    + inversion H; subst. split; [reflexivity|]. cbn [length] in Hl. lia.
+    + eapply IH; [exact H|]. cbn [length] in Hl. lia.
+Qed.
+Lemma safe_readVarInt : safe readVarInt.
+Proof.
+  intros sz s r sz' s' H Hl. unfold readVarInt in H.
+  destruct (varint_scan s sz 0 0) as [[r0 sz0] s0] eqn:E.
+  destruct (varint_scan_safe _ _ _ _ _ _ _ E Hl) as [Hr Hl'].
+  destruct r0; inversion H; subst; auto.
+Qed.
+
+(* ---- try_short ---- *)
+Lemma good_try_short A (p : P A) : good p -> good (try_short p).
+Proof.
+  intros Hp sz s r sz' s' H. unfold try_short in H.
+  destruct (p sz s) as [[ra sz1] s1] eqn:Ep.
+  destruct (Hp _ _ _ _ _ Ep) as (c1 & Hs & Hb & Hd).
+  assert (Hpass : forall k, (k < length c1)%nat ->
+     exists e sz2 s2, try_short p sz (firstn k c1) = (inr e, sz2, s2) /\ transport e = true).
+  { intros k Hk. destruct (Hd k Hk) as (e & sz2 & s2 & He & Ht). exists e, sz2, s2.
+    split; [|exact Ht]. unfold try_short. rewrite He.
+    destruct e; try reflexivity; discriminate Ht. }
+  destruct ra as [a|e].
+  { inversion H; subst r sz' s'. exists c1. split; [exact Hs|]. split; [|exact Hpass].
+    intros _. destruct (Hb eq_refl) as [Hsz Hloc]. split; [exact Hsz|].
+    intros rest. unfold try_short. rewrite Hloc. reflexivity. }
+  destruct e as [| | |c| | | | | | |];
+    try (inversion H; subst r sz' s'; exists c1; split; [exact Hs|]; split; [|exact Hpass];
+         intros Hr; destruct (Hb Hr) as [Hsz Hloc]; split; [exact Hsz|];
+         intros rest; unfold try_short; rewrite Hloc; reflexivity).
+  (* errShortRead: the remainder is discarded, the batch ends *)
+  destruct (Hb eq_refl) as [Hsz1 Hloc1].
+  destruct (discardN sz1 sz1 s1) as [[rd sz2] s2] eqn:Ed.
+  destruct (good_discardN sz1 _ _ _ _ _ Ed) as (c2 & Hs2 & Hb2 & Hd2).
+  assert (Hr' : r = match rd with inl _ => inl None | inr e => inr e end /\ sz' = sz2 /\ s' = s2)
+    by (destruct rd; inversion H; auto).
+  destruct Hr' as (Hr' & ? & ?). subst sz' s'.
+  exists (c1 ++ c2). split; [subst s s1; apply app_assoc|]. split.
+  - intros Hrt.
+    assert (Hrd : rtransport rd = false) by (destruct rd; [reflexivity|subst r; exact Hrt]).
+    destruct (Hb2 Hrd) as [Hsz2 Hloc2]. split; [rewrite app_length; lia|].
+    intros rest. unfold try_short. rewrite <- app_assoc, Hloc1, Hloc2.
+    subst r. destruct rd; reflexivity.
+  - intros k Hk. rewrite app_length in Hk.
+    destruct (Nat.lt_ge_cases k (length c1)) as [Hlt|Hge].
+    + rewrite firstn_app_lt by exact Hlt. apply Hpass. exact Hlt.
+    + destruct (Hd2 (k - length c1)%nat ltac:(lia)) as (e & sz3 & s3 & He & Ht).
+      exists e, sz3, s3. split; [|exact Ht].
+      unfold try_short. rewrite firstn_app_ge by exact Hge. rewrite Hloc1, He. reflexivity.
+Qed.
+
+Lemma safe_try_short A (p : P A) : safe p -> safe (try_short p).
+Proof.
+  intros Hp sz s r sz' s' H Hl. unfold try_short in H.
+  destruct (p sz s) as [[ra sz1] s1] eqn:Ep. destruct (Hp _ _ _ _ _ Ep Hl) as [Hr Hl1].
+  destruct ra as [a|e]; [inversion H; subst; auto|].
+  destruct e; try (inversion H; subst; auto).
+  destruct (discardN sz1 sz1 s1) as [[rd sz2] s2] eqn:Ed.
+  destruct (safe_discardN _ _ _ _ _ _ Ed Hl1) as [Hrd Hl2].
+  destruct rd; inversion H; subst; auto.
+Qed.
